@@ -407,7 +407,7 @@ def handle (toks : List String) : String :=
         | .ok days =>
           let js := renderRange days
           let jc := renderRangeCanon days
-          let dec := if decodeRange js == some days then "D1" else "D0"
+          let dec := if decodeRange js == some days && decodeRangeCanon jc == some days then "D1" else "D0"
           s!"J {js.utf8ByteSize} {hexOfBits (fnv1a js).toNat} {jc.utf8ByteSize} {hexOfBits (fnv1a jc).toNat} {dec}"
         | .error e => showPanic e)
       | _, _ => bad)
